@@ -53,8 +53,11 @@ def check_case(case):
             H = ssrun.transfer(m, w)
         except np.linalg.LinAlgError:
             pn = ssrun.phasor_network(case, w, active=m['sources'][0])
-            if spec_solution(pn) is None or netrun.mna_cond(pn) > 1e8:
-                continue          # (near-)resonance of a lossless loop: the phasor problem itself is (nearly) singular
+            ps = spec_solution(pn)
+            if ps is None or netrun.mna_cond(pn) > 1e8 or max([abs(complex(x)) for x in ps['phi'].values()] + [0.0]) > 1e8:
+                # (near-)resonance of a lossless loop: the phasor problem itself is (nearly) singular — for a 1 x 1 nodal system the condition
+                # number says nothing, the size of the exact response to a unit source does (jwC + 1/(jwL) = 1e-21 in exact arithmetic)
+                continue
             bad.append(('C10:resolvent-singular', f'jwI - A is singular at w={w} although the phasor problem is well-posed; A = {m["A"].tolist()}'))
             return bad, m
         for k, s in enumerate(m['sources']):
